@@ -313,7 +313,8 @@ fn format_line_number(
                 hyperlinks::format_osc8_file_hyperlink(absolute_path, line_number, &pad(n), config)
                     .to_string()
             }
-            None => file.to_owned(),
+            // (no link can be made, e.g. there is no working directory: the number all the same)
+            None => pad(n),
         },
         (Some(n), _, _) => pad(n),
     }
